@@ -583,8 +583,37 @@ func c07r5(p *Program, r *Report) {
 			return ok && typeNameOf(ch.Elem()) == "writeResult"
 		}
 	}
+	// the functions that deliver results: flush, the flusher loop and the private helpers they were split into
+	sendsResults := func(fi *FuncInfo) bool {
+		has := false
+		m := isResultChanSend(fi.Pkg.TypesInfo)
+		ast.Inspect(fi.Decl.Body, func(x ast.Node) bool {
+			if s, ok := x.(*ast.SendStmt); ok && m(s) {
+				has = true
+			}
+			return true
+		})
+		return has
+	}
+	scope := []*FuncInfo{fl, impl}
+	helperLoops := map[*FuncInfo]int{}
+	for _, root := range []*FuncInfo{fl, impl} {
+		for _, h := range p.privateCallees(root) {
+			if sendsResults(h) {
+				dup := false
+				for _, x := range scope {
+					if x == h {
+						dup = true
+					}
+				}
+				if !dup {
+					scope = append(scope, h)
+				}
+			}
+		}
+	}
 	// loops that send results: each iteration sends exactly one
-	for _, fi := range []*FuncInfo{fl, impl} {
+	for _, fi := range scope {
 		info := fi.Pkg.TypesInfo
 		m := isResultChanSend(info)
 		nloops := 0
@@ -617,8 +646,18 @@ func c07r5(p *Program, r *Report) {
 				"a path through this loop body sends "+itoa(mn)+".."+itoa(mx)+" results for one pending writer (0: the writer blocks forever; 2: the flusher blocks on the full channel)")
 			return false
 		})
+		helperLoops[fi] = nloops
 		if nloops == 0 {
-			r.Unresolved("%s: no result-delivery loop found", fi.Name)
+			// the loops of flush / the flusher may have moved into helpers
+			moved := false
+			for _, h := range p.privateCallees(fi) {
+				if sendsResults(h) {
+					moved = true
+				}
+			}
+			if !moved {
+				r.Unresolved("%s: no result-delivery loop found", fi.Name)
+			}
 		}
 		// sends outside loops are not allowed (a single send cannot serve all pending writers)
 		ast.Inspect(fi.Decl.Body, func(n ast.Node) bool {
@@ -652,18 +691,24 @@ func c07r5(p *Program, r *Report) {
 					return []string{"delivered"}
 				}
 			}
-			if st.Kind == StRange && !st.Val {
-				if rs, ok := st.Node.(*ast.RangeStmt); ok {
-					has := false
-					ast.Inspect(rs.Body, func(x ast.Node) bool {
-						if s, ok := x.(*ast.SendStmt); ok && m(s) {
-							has = true
-						}
-						return true
-					})
-					if has {
-						return []string{"loopDone"}
+			loopSends := func(body *ast.BlockStmt) bool {
+				has := false
+				ast.Inspect(body, func(x ast.Node) bool {
+					if s, ok := x.(*ast.SendStmt); ok && m(s) {
+						has = true
 					}
+					return true
+				})
+				return has
+			}
+			if st.Kind == StRange && !st.Val {
+				if rs, ok := st.Node.(*ast.RangeStmt); ok && loopSends(rs.Body) {
+					return []string{"loopDone"}
+				}
+			}
+			if st.Kind == StCond && !st.Val {
+				if f, ok := p.Parent(st.Node).(*ast.ForStmt); ok && f.Cond == st.Node && loopSends(f.Body) {
+					return []string{"loopDone"}
 				}
 			}
 			return nil
@@ -676,161 +721,208 @@ func c07r5(p *Program, r *Report) {
 			r.Check(s.Must["loopDone"], e.Node, "(*writeCoalescer).flush exit "+exitDesc(p, e)+" after delivery loop", "all pending writers were served before returning",
 				"flush can return without running a delivery loop over the pending writers: they wait forever")
 		}
-		// success result only under the fully-written guard; budget consumed / zeroed before the next iteration
-		counters := map[types.Object]bool{}
-		ast.Inspect(fl.Decl.Body, func(n ast.Node) bool {
-			as, ok := n.(*ast.AssignStmt)
-			if !ok || len(as.Rhs) != 1 {
-				return true
-			}
-			if c, ok := ast.Unparen(as.Rhs[0]).(*ast.CallExpr); ok && calleeName(info, c) == "net.(*Buffers).WriteTo" {
-				if id, ok := as.Lhs[0].(*ast.Ident); ok {
-					if o := info.Defs[id]; o != nil {
-						counters[o] = true
-					} else if o := info.Uses[id]; o != nil {
-						counters[o] = true
-					}
-				}
-			}
-			return true
-		})
-		for changed := true; changed; {
-			changed = false
-			ast.Inspect(fl.Decl.Body, func(n ast.Node) bool {
+		_ = info
+	}
+	// success result only under the fully-written guard; budget consumed / zeroed before the next iteration.
+	// Decided in whichever function of the scope sends the success results (flush itself or a helper that
+	// receives the byte count as a parameter).
+	{
+		countersOf := map[*FuncInfo]map[types.Object]bool{}
+		for _, fi := range scope {
+			countersOf[fi] = map[types.Object]bool{}
+		}
+		// seeds: variables assigned from net.Buffers.WriteTo
+		for _, fi := range scope {
+			info := fi.Pkg.TypesInfo
+			ast.Inspect(fi.Decl.Body, func(n ast.Node) bool {
 				as, ok := n.(*ast.AssignStmt)
-				if !ok || len(as.Lhs) != 1 || len(as.Rhs) != 1 || (as.Tok != token.DEFINE && as.Tok != token.ASSIGN) {
+				if !ok || len(as.Rhs) != 1 {
 					return true
 				}
-				if rid, ok := ast.Unparen(as.Rhs[0]).(*ast.Ident); ok && counters[info.Uses[rid]] {
-					if lid, ok := as.Lhs[0].(*ast.Ident); ok {
-						o := info.Defs[lid]
-						if o == nil {
-							o = info.Uses[lid]
-						}
-						if o != nil && !counters[o] {
-							counters[o] = true
-							changed = true
+				if c, ok := ast.Unparen(as.Rhs[0]).(*ast.CallExpr); ok && calleeName(info, c) == "net.(*Buffers).WriteTo" {
+					if id, ok := as.Lhs[0].(*ast.Ident); ok {
+						if o := info.Defs[id]; o != nil {
+							countersOf[fi][o] = true
+						} else if o := info.Uses[id]; o != nil {
+							countersOf[fi][o] = true
 						}
 					}
 				}
 				return true
 			})
 		}
-		if len(counters) == 0 {
-			r.Unresolved("flush: no byte counter assigned from net.Buffers.WriteTo")
-		}
-		isCounter := func(e ast.Expr) bool {
-			id, ok := ast.Unparen(e).(*ast.Ident)
-			return ok && counters[info.Uses[id]]
-		}
-		counterNames := map[string]bool{}
-		for o := range counters {
-			counterNames[o.Name()] = true
-		}
-		classify := func(s *ast.SendStmt) string { // "ok" | "fail" | ""
-			if !m(s) {
-				return ""
+		for changed := true; changed; {
+			changed = false
+			for _, fi := range scope {
+				info := fi.Pkg.TypesInfo
+				counters := countersOf[fi]
+				ast.Inspect(fi.Decl.Body, func(n ast.Node) bool {
+					switch x := n.(type) {
+					case *ast.AssignStmt:
+						if len(x.Lhs) != 1 || len(x.Rhs) != 1 || (x.Tok != token.DEFINE && x.Tok != token.ASSIGN) {
+							return true
+						}
+						if rid, ok := ast.Unparen(x.Rhs[0]).(*ast.Ident); ok && counters[info.Uses[rid]] {
+							if lid, ok := x.Lhs[0].(*ast.Ident); ok {
+								o := info.Defs[lid]
+								if o == nil {
+									o = info.Uses[lid]
+								}
+								if o != nil && !counters[o] {
+									counters[o] = true
+									changed = true
+								}
+							}
+						}
+					case *ast.CallExpr:
+						// a counter passed to a helper of the scope: the parameter is a counter there
+						fn := calleeOf(info, x)
+						if fn == nil {
+							return true
+						}
+						callee := p.FuncOf(fn)
+						if callee == nil || countersOf[callee] == nil {
+							return true
+						}
+						k := 0
+						for _, pf := range callee.Decl.Type.Params.List {
+							for _, pn := range pf.Names {
+								if k < len(x.Args) {
+									if aid, ok := ast.Unparen(x.Args[k]).(*ast.Ident); ok && counters[info.Uses[aid]] {
+										if po := callee.Pkg.TypesInfo.Defs[pn]; po != nil && !countersOf[callee][po] {
+											countersOf[callee][po] = true
+											changed = true
+										}
+									}
+								}
+								k++
+							}
+						}
+					}
+					return true
+				})
 			}
-			cl, ok := ast.Unparen(s.Value).(*ast.CompositeLit)
-			if !ok {
-				return "fail"
+		}
+		nsuccAll := 0
+		for _, fl := range scope {
+			info := fl.Pkg.TypesInfo
+			m := isResultChanSend(info)
+			g := p.GraphOf(fl)
+			counters := countersOf[fl]
+			isCounter := func(e ast.Expr) bool {
+				id, ok := ast.Unparen(e).(*ast.Ident)
+				return ok && counters[info.Uses[id]]
 			}
-			for _, el := range cl.Elts {
-				if kv, ok := el.(*ast.KeyValueExpr); ok && exprStr(kv.Key) == "err" && !isNil(info, kv.Value) {
+			counterNames := map[string]bool{}
+			for o := range counters {
+				counterNames[o.Name()] = true
+			}
+			classify := func(s *ast.SendStmt) string { // "ok" | "fail" | ""
+				if !m(s) {
+					return ""
+				}
+				cl, ok := ast.Unparen(s.Value).(*ast.CompositeLit)
+				if !ok {
 					return "fail"
 				}
-			}
-			return "ok"
-		}
-		facts := g.GuardFacts()
-		type budget struct{ unreduced, unzeroed bool }
-		bs := Solve(g, Lattice[budget]{
-			Join: func(a, b budget) budget { return budget{a.unreduced || b.unreduced, a.unzeroed || b.unzeroed} },
-			Eq:   func(a, b budget) bool { return a == b },
-			Step: func(st budget, step Step) budget {
-				if step.Kind != StNode {
-					return st
-				}
-				switch x := step.Node.(type) {
-				case *ast.SendStmt:
-					switch classify(x) {
-					case "ok":
-						st.unreduced = true
-					case "fail":
-						st.unzeroed = true
+				for _, el := range cl.Elts {
+					if kv, ok := el.(*ast.KeyValueExpr); ok && exprStr(kv.Key) == "err" && !isNil(info, kv.Value) {
+						return "fail"
 					}
-				case *ast.AssignStmt:
-					if len(x.Lhs) == 1 && isCounter(x.Lhs[0]) {
-						if x.Tok == token.SUB_ASSIGN {
-							st.unreduced = false
+				}
+				return "ok"
+			}
+			facts := g.GuardFacts()
+			type budget struct{ unreduced, unzeroed bool }
+			bs := Solve(g, Lattice[budget]{
+				Join: func(a, b budget) budget { return budget{a.unreduced || b.unreduced, a.unzeroed || b.unzeroed} },
+				Eq:   func(a, b budget) bool { return a == b },
+				Step: func(st budget, step Step) budget {
+					if step.Kind != StNode {
+						return st
+					}
+					switch x := step.Node.(type) {
+					case *ast.SendStmt:
+						switch classify(x) {
+						case "ok":
+							st.unreduced = true
+						case "fail":
+							st.unzeroed = true
 						}
-						if x.Tok == token.ASSIGN {
-							if v, ok := constInt(info, x.Rhs[0]); ok && v == 0 {
-								st.unzeroed = false
-							}
-							if b, ok := ast.Unparen(x.Rhs[0]).(*ast.BinaryExpr); ok && b.Op == token.SUB && isCounter(b.X) {
+					case *ast.AssignStmt:
+						if len(x.Lhs) == 1 && isCounter(x.Lhs[0]) {
+							if x.Tok == token.SUB_ASSIGN {
 								st.unreduced = false
 							}
+							if x.Tok == token.ASSIGN {
+								if v, ok := constInt(info, x.Rhs[0]); ok && v == 0 {
+									st.unzeroed = false
+								}
+								if b, ok := ast.Unparen(x.Rhs[0]).(*ast.BinaryExpr); ok && b.Op == token.SUB && isCounter(b.X) {
+									st.unreduced = false
+								}
+							}
 						}
 					}
+					return st
+				},
+			})
+			nsucc, nfail := 0, 0
+			ast.Inspect(fl.Decl.Body, func(n ast.Node) bool {
+				s, ok := n.(*ast.SendStmt)
+				if !ok {
+					return true
 				}
-				return st
-			},
-		})
-		nsucc, nfail := 0, 0
-		ast.Inspect(fl.Decl.Body, func(n ast.Node) bool {
-			s, ok := n.(*ast.SendStmt)
-			if !ok {
-				return true
-			}
-			switch classify(s) {
-			case "ok":
-				// only sends that happen after the write count (the early error loops never report success)
-				nsucc++
-				f, _ := facts.Before(s)
-				okGuard := false
-				for atom, v := range f.m {
-					// "<counter> < <size>" known false  ==  size <= counter
-					if i := strings.Index(atom, " < "); i > 0 && !v && counterNames[atom[:i]] {
-						okGuard = true
+				switch classify(s) {
+				case "ok":
+					// only sends that happen after the write count (the early error loops never report success)
+					nsucc++
+					f, _ := facts.Before(s)
+					okGuard := false
+					for atom, v := range f.m {
+						// "<counter> < <size>" known false  ==  size <= counter
+						if i := strings.Index(atom, " < "); i > 0 && !v && counterNames[atom[:i]] {
+							okGuard = true
+						}
 					}
-				}
-				r.Check(okGuard, s, "(*writeCoalescer).flush success result guarded", "success reported only when the buffer's length <= bytes remaining",
-					"a nil-error result is sent without the guard len(buffer) <= remaining bytes: a writer is told its frame was written although it was cut")
-			case "fail":
-				nfail++
-			}
-			return true
-		})
-		if nsucc == 0 {
-			r.Unresolved("flush: no success result send found")
-		}
-		// at the start of every iteration of a result loop the budget must be consistent
-		ast.Inspect(fl.Decl.Body, func(n ast.Node) bool {
-			rs, ok := n.(*ast.RangeStmt)
-			if !ok {
-				return true
-			}
-			hasOK := false
-			ast.Inspect(rs.Body, func(x ast.Node) bool {
-				if s, ok := x.(*ast.SendStmt); ok && classify(s) == "ok" {
-					hasOK = true
+					r.Check(okGuard, s, "(*writeCoalescer).flush success result guarded", "success reported only when the buffer's length <= bytes remaining",
+						"a nil-error result is sent without the guard len(buffer) <= remaining bytes: a writer is told its frame was written although it was cut")
+				case "fail":
+					nfail++
 				}
 				return true
 			})
-			if !hasOK || len(rs.Body.List) == 0 {
+			nsuccAll += nsucc
+			// at the start of every iteration of a result loop the budget must be consistent
+			ast.Inspect(fl.Decl.Body, func(n ast.Node) bool {
+				rs, ok := n.(*ast.RangeStmt)
+				if !ok {
+					return true
+				}
+				hasOK := false
+				ast.Inspect(rs.Body, func(x ast.Node) bool {
+					if s, ok := x.(*ast.SendStmt); ok && classify(s) == "ok" {
+						hasOK = true
+					}
+					return true
+				})
+				if !hasOK || len(rs.Body.List) == 0 {
+					return true
+				}
+				st, ok := bs.Before(g.FirstNodeIn(rs.Body.List[0]))
+				if !ok {
+					return true
+				}
+				r.Check(!st.unreduced, rs, "(*writeCoalescer).flush consumes the byte budget", "remaining bytes reduced by each fully written buffer before the next one is judged",
+					"the remaining-bytes counter is not reduced after a fully written buffer: later buffers are reported written from the same bytes")
+				r.Check(!st.unzeroed, rs, "(*writeCoalescer).flush zeroes the budget after a cut buffer", "remaining bytes = 0 once a buffer was cut",
+					"after the first partially written buffer the remaining-bytes counter is not zeroed: a later, shorter buffer in the same batch is reported written although none of its bytes were")
 				return true
-			}
-			st, ok := bs.Before(g.FirstNodeIn(rs.Body.List[0]))
-			if !ok {
-				return true
-			}
-			r.Check(!st.unreduced, rs, "(*writeCoalescer).flush consumes the byte budget", "remaining bytes reduced by each fully written buffer before the next one is judged",
-				"the remaining-bytes counter is not reduced after a fully written buffer: later buffers are reported written from the same bytes")
-			r.Check(!st.unzeroed, rs, "(*writeCoalescer).flush zeroes the budget after a cut buffer", "remaining bytes = 0 once a buffer was cut",
-				"after the first partially written buffer the remaining-bytes counter is not zeroed: a later, shorter buffer in the same batch is reported written although none of its bytes were")
-			return true
-		})
+			})
+		}
+		if nsuccAll == 0 {
+			r.Unresolved("coalescer: no success result send found in flush or its helpers")
+		}
 	}
 	// writeFlusherImpl: buffers and resultChans appended pairwise in the same clause
 	{
@@ -905,22 +997,32 @@ func c07r7(p *Program, r *Report) {
 		n++
 		g := p.GraphOf(fi)
 		info := g.Info
-		facts := g.GuardFacts()
-		f, ok := facts.Before(s.call)
+		// path-sensitive facts: the failure state may be tested through a local copy, possibly merged with another
+		// error (failure := w.writeErr; if failure == nil { failure = SetWriteDeadline(...) }; if failure != nil { return })
+		ps, ok := g.GuardFactsPS().Before(p.stmtOf(s.call, fi))
 		recvName := ""
 		if len(fi.Decl.Recv.List) > 0 && len(fi.Decl.Recv.List[0].Names) > 0 {
 			recvName = fi.Decl.Recv.List[0].Names[0].Name
 		}
 		guard := ""
-		if ok {
-			for atom, v := range f.m {
-				// "<recv>.<field> == nil" true, or "<recv>.<field>" false
-				if strings.HasPrefix(atom, recvName+".") {
-					if strings.HasSuffix(atom, " == nil") && v {
-						guard = strings.TrimSuffix(atom, " == nil")
-					} else if !strings.Contains(atom, " ") && !v {
-						guard = atom
+		if ok && len(ps) > 0 {
+			// a guard atom must be decided the same way in every disjunct
+			cands := map[string]int{}
+			for _, f := range ps {
+				for atom, v := range f.m {
+					// "<recv>.<field> == nil" true, or "<recv>.<field>" false
+					if strings.HasPrefix(atom, recvName+".") {
+						if strings.HasSuffix(atom, " == nil") && v {
+							cands[strings.TrimSuffix(atom, " == nil")]++
+						} else if !strings.Contains(atom, " ") && !v {
+							cands[atom]++
+						}
 					}
+				}
+			}
+			for c, k := range cands {
+				if k == len(ps) {
+					guard = c
 				}
 			}
 		}
